@@ -54,6 +54,12 @@ CLAIMED["C16"] = ("fault_enumeration",
   "Migration equivalence/idempotence of valid old definitions (the other clauses of C16) is only monitored on the corpus (second migration is a no-op, UUID kept, read-marshal-read fixpoint), not claimed: it is a pure function of the definition. Callers pass migrations.DefaultConfig as every caller in the repository does.",
   "DESIGN.md §5 C16")
 
+CLAIMED["C09"] = ("exploration",
+  "deterministic simulation of goroutine schedules: seeded baton scheduler (norace plain-word hand-over at every seam call and rewritten lock attempt) under the Go race detector with sync.Pool neutralised by a build overlay; outputs compared with fresh-process solo runs",
+  "Each trial is a fresh process of a -race build made from a scratch copy of the current tree in which sync.Mutex/RWMutex Lock calls are rewritten to TryLock loops that yield the baton. 2-6 worker goroutines drive their own sessions over one shared SessionAssets with a cold flow cache (generated flows plus old-format corpus definitions that migrate lazily); exactly one goroutine runs at a time and a seeded scheduler decides at every seam call who runs next, so one seed is one exactly repeatable interleaving which the race detector judges using only goflow's own synchronisation (the hand-over creates no happens-before edge). Oracles: no race report involving goflow or its dependencies (keyed by access-site pairs), no runtime abort, and each worker's outputs equal - modulo UUIDs and timestamps - its own script run alone in a fresh process. Evidence, not proof: schedules are sampled.",
+  "amd64 memory ordering for the plain-word baton; sync.Pool overlay (Put always drops under -race); the race detector sees only accesses a trial executes; gocommon's random package holds its own mutex around generator calls, so random draws are not yield points.",
+  "DESIGN.md §3.6, §5 C09")
+
 NOT_BUILT = {
 }
 
